@@ -174,6 +174,30 @@ class ChildrenList(list):
                     f"its constructor predefined the parent reference to a "
                     f"different '{item.parent.coloured_name(False)}' node.")
 
+        self._check_not_ancestor(item)
+
+    def _check_not_ancestor(self, item):
+        '''
+        Checks that the provided item is neither the node that this list
+        belongs to nor one of its ancestors (as adding it as a child would
+        create a cycle in the tree).
+
+        :param item: object that needs to be validated.
+        :type item: :py:class:`psyclone.psyir.nodes.Node`
+
+        :raises GenerationError: if the given item is this node or one of \
+            its ancestors.
+
+        '''
+        cursor = self._node_reference
+        while cursor is not None:
+            if cursor is item:
+                raise GenerationError(
+                    f"Item '{item.coloured_name(False)}' can't be added as "
+                    f"child of '{self._node_reference.coloured_name(False)}' "
+                    f"because it is that node or one of its ancestors.")
+            cursor = cursor.parent
+
     def _positive_index(self, index):
         '''
         :param int index: a (possibly negative) index of an existing item.
@@ -1015,6 +1039,8 @@ class Node():
             self._children._validate_item(index, item)
             if item.parent is not self:
                 self._children._check_is_orphan(item)
+            else:
+                self._children._check_not_ancestor(item)
             if any(item is previous for previous in new_children[:index]):
                 raise GenerationError(
                     f"Item '{item.coloured_name(False)}' can't be added more "
